@@ -207,3 +207,6 @@ fn c13_token_type_ranges() {
     assert!(is_macro_stat_tok_type(TokenType::KwmLet) && is_macro_stat_tok_type(TokenType::KwmDo));
     assert!(!is_macro_stat_tok_type(TokenType::MacroIdentifier) && !is_macro_stat_tok_type(TokenType::KwmEval));
 }
+
+// (a bounded harness on hex.rs::parse_sas_hex_string with a 2-character content did not finish in 15 min /
+//  String+Vec+iterator chains+encoding tables: the hex decoder is outside what CBMC can do here; see DESIGN.md)
